@@ -4,13 +4,6 @@
 From OtpV Require Import Prelude Sha GoSem Tables Decoder Derive Otp Ocra Errors Src SrcLift SrcEqDerive SrcEqOtp SrcEqOcra SrcTop C10.
 Open Scope N_scope.
 
-Definition returns {A} (r : res A) : Prop := exists a, r = Val a.
-
-Lemma lift_oc_returns o : o <> Panic -> returns (lift_oc o).
-Proof. intros H. destruct o as [a|e|]; [eexists; reflexivity|eexists; reflexivity|congruence]. Qed.
-Lemma lift_v_returns o : fst o <> Panic -> returns (lift_v o).
-Proof. intros H. unfold lift_v. destruct (fst o) as [a|e|]; [eexists; reflexivity|eexists; reflexivity|congruence]. Qed.
-
 Theorem C10src_hotp : forall fuel junk secret code c p, runs fuel junk secret ->
   returns (Src.GenerateHOTP fuel junk secret c p) /\ returns (Src.ValidateHOTP fuel junk secret code c p).
 Proof.
